@@ -9,8 +9,8 @@
 #include "c10_ossl_peer.h"
 using namespace vf; using namespace mxh; using namespace c10;
 
-enum { D_NONE, D_INT_OK, D_EXPIRED, D_NOTYET, D_WRONGNAME, D_UNKNOWNCA, D_BADSIG, D_INT_NOTCA, D_INT_NOSIGN, D_DEPTH, D_EXPIRED_AND_UNKNOWNCA, D_EXPIRED_LEAF_UNANCHORED_CHAIN, D_TBS_ALTERED, D_N };
-static const char *dname[] = { "none", "valid-intermediate", "expired", "not-yet-valid", "wrong-name", "unknown-ca", "bad-signature", "intermediate-not-ca", "intermediate-without-keyCertSign", "max-verify-depth-exceeded", "expired+unknown-ca", "expired-leaf-in-unanchored-chain", "tbs-altered-under-genuine-signature" };
+enum { D_NONE, D_INT_OK, D_EXPIRED, D_NOTYET, D_WRONGNAME, D_UNKNOWNCA, D_BADSIG, D_INT_NOTCA, D_INT_NOSIGN, D_DEPTH, D_EXPIRED_AND_UNKNOWNCA, D_EXPIRED_LEAF_UNANCHORED_CHAIN, D_TBS_ALTERED, D_REVOKED, D_CRL_OTHER_SERIALS, D_N };
+static const char *dname[] = { "none", "valid-intermediate", "expired", "not-yet-valid", "wrong-name", "unknown-ca", "bad-signature", "intermediate-not-ca", "intermediate-without-keyCertSign", "max-verify-depth-exceeded", "expired+unknown-ca", "expired-leaf-in-unanchored-chain", "tbs-altered-under-genuine-signature", "revoked-by-authenticated-crl", "crl-loaded-but-not-listing-the-peer" };
 enum { CB_NONE, CB_STRICT, CB_PERMISSIVE, CB_ANON, CB_PICKY_EXPIRED, CB_N };
 static const char *cbname[] = { "no-callback", "strict", "permissive", "anon", "picky(expired-only)" };
 
@@ -41,11 +41,11 @@ static void prop(Tape &t, Ctx &c) {
     uint32_t es = t.u16();
     // RSASSA-PSS signed leaf (RSA key, ca_rsa issuer): only the two defects that exist for it (gen4.sh)
     bool pss = rsa && t.chance(1, 3); const char *CT = pss ? "pss" : T;
-    if (pss && defect != D_NONE && defect != D_TBS_ALTERED) defect = (defect & 1) ? D_TBS_ALTERED : D_NONE;
+    if (pss && defect != D_NONE && defect != D_TBS_ALTERED && defect != D_REVOKED && defect != D_CRL_OTHER_SERIALS) defect = (defect & 1) ? D_TBS_ALTERED : D_NONE;
     std::string D = verif_dir() + "/props/C04/pki/", P = verif_dir() + "/pki/";
     std::string pc, pk;   // presented credential
     switch (defect) {
-    case D_NONE: pc = D + "good_" + CT + ".pem"; pk = D + "good_" + CT + ".key"; break;
+    case D_NONE: case D_REVOKED: case D_CRL_OTHER_SERIALS: pc = D + "good_" + CT + ".pem"; pk = D + "good_" + CT + ".key"; break;
     case D_TBS_ALTERED: pc = D + "tbsaltered_" + CT + ".pem"; pk = D + "tbsaltered_" + CT + ".key"; break;
     case D_INT_OK: case D_DEPTH: pc = D + "chain_ica_" + T + ".pem"; pk = D + "via_ica_" + T + ".key"; break;
     case D_EXPIRED: pc = D + "expired_" + T + ".pem"; pk = D + "expired_" + T + ".key"; break;
@@ -65,7 +65,11 @@ static void prop(Tape &t, Ctx &c) {
     // credentials of its own); verifier = MatrixSSL with the good CA as trust anchor
     KG verifier{ client_verifies ? load("", "", ca) : load(D + "good_" + T + ".pem", D + "good_" + T + ".key", ca) };
     if (!verifier.k) { c.count("verifier-keys-refused-at-load"); return; }
-    bool defect_present = !(defect == D_NONE || defect == D_INT_OK);
+    bool defect_present = !(defect == D_NONE || defect == D_INT_OK || defect == D_CRL_OTHER_SERIALS);
+    // CRLs (gen5.sh): the application loads the CA's CRL into the library's CRL cache and authenticates it against the CA, the way
+    // apps/ssl/client.c does; "revoked" lists the serial of the otherwise good leaf, "other serials" is an empty CRL of the same CA.
+    std::string crl_file = defect == D_REVOKED ? D + "crl_revoked_" + T + ".der" : defect == D_CRL_OTHER_SERIALS ? D + "crl_empty_" + T + ".der" : "";
+    struct CrlGuard { ~CrlGuard() { psCRL_DeleteAll(); } } crl_guard;
     bool must_fail = defect_present && (cb == CB_NONE || cb == CB_STRICT || (cb == CB_PICKY_EXPIRED && defect != D_EXPIRED && defect != D_NOTYET));
     bool must_complete = !defect_present && (cb == CB_NONE || cb == CB_STRICT || cb == CB_PICKY_EXPIRED);
     static const int vers[] = { TLS11, TLS12, TLS13, DTLS12 }; static const int wire[] = { W_TLS11, W_TLS12, W_TLS13, W_DTLS12 };
@@ -76,6 +80,15 @@ static void prop(Tape &t, Ctx &c) {
         vfh_entropy_reset(9000 + es + vi); vfh_clock_set_ms(1000000); ossl_seed(77 + es + vi);
         matrixSslClose(); matrixSslOpen();
         g_cb_mode = cb; g_cb_calls = 0; g_cb_last_alert = -1;
+        psCRL_DeleteAll();
+        if (!crl_file.empty()) {
+            std::string der; { FILE *f = fopen(crl_file.c_str(), "rb"); if (f) { char b[4096]; size_t n; while ((n = fread(b, 1, sizeof b, f)) > 0) der.append(b, n); fclose(f); } } psX509Crl_t *crl = NULL; psX509Cert_t *cacert = NULL;
+            if (der.empty() || psX509ParseCRL(NULL, &crl, (unsigned char *) der.data(), (int32) der.size()) < 0 || psX509ParseCertFile(NULL, ca.c_str(), &cacert, 0) < 0) VF_FAIL("harness-crl-load-failed", "%s", crl_file.c_str());
+            psCRL_Update(crl, 1);
+            int arc = psX509AuthenticateCRL(cacert, crl, NULL); psX509FreeCert(cacert);
+            VF_CHECK(arc >= 0, "harness-crl-load-failed", "psX509AuthenticateCRL=%d for %s", arc, crl_file.c_str());
+            c.count("crl-loaded-and-authenticated");
+        }
         OsslCtxConfig oc; oc.server = client_verifies; oc.dtls = dt; oc.min_version = oc.max_version = wire[vi]; oc.cert_file = pc; oc.key_file = pk; oc.ca_file = ca; oc.auto_chain = false; oc.tickets = false;
         if (ver != TLS13) oc.cipher_list = rsa ? (ver == TLS11 ? "ECDHE-RSA-AES128-SHA" : "ECDHE-RSA-AES128-GCM-SHA256") : (ver == TLS11 ? "ECDHE-ECDSA-AES128-SHA" : "ECDHE-ECDSA-AES128-GCM-SHA256");
         oc.legacy_server_connect = true;
